@@ -366,16 +366,6 @@ func (in *Interp) conv(tDst, tSrc types.Type, x value) value {
 
 func (in *Interp) slice(fr *frame, instr *ssa.Slice) value {
 	x := fr.get(instr.X)
-	var lo, hi, max = -1, -1, -1
-	if instr.Low != nil {
-		lo = in.mustInt(fr.get(instr.Low), "slice low")
-	}
-	if instr.High != nil {
-		hi = in.mustInt(fr.get(instr.High), "slice high")
-	}
-	if instr.Max != nil {
-		max = in.mustInt(fr.get(instr.Max), "slice max")
-	}
 	var Len, Cap int
 	switch xv := x.(type) {
 	case string:
@@ -394,6 +384,31 @@ func (in *Interp) slice(fr *frame, instr *ssa.Slice) value {
 		panic(unsupported{"slicing a symbolic Str"})
 	default:
 		panic(fmt.Sprintf("slice: unexpected %T", x))
+	}
+	// a symbolic bound: outside [0, cap] the program panics (one path); inside, the few
+	// possible values are enumerated
+	bound := func(v ssa.Value, what string) int {
+		val := fr.get(v)
+		if n, ok := in.constInt(val); ok {
+			return int(n)
+		}
+		t := val.(*smt.Term)
+		w := t.Sort.W
+		inRange := in.C.And(in.C.BVSLe(in.C.BVConstI(0, w), t), in.C.BVSLe(t, in.C.BVConstI(int64(Cap), w)))
+		if !in.branch(inRange) {
+			panic(targetPanic{msg: fmt.Sprintf("runtime error: slice bounds out of range [%s] with capacity %d", what, Cap)})
+		}
+		return int(in.concretize(t, what).Int64())
+	}
+	var lo, hi, max = -1, -1, -1
+	if instr.Low != nil {
+		lo = bound(instr.Low, "slice low")
+	}
+	if instr.High != nil {
+		hi = bound(instr.High, "slice high")
+	}
+	if instr.Max != nil {
+		max = bound(instr.Max, "slice max")
 	}
 	if lo < 0 {
 		lo = 0
